@@ -31,6 +31,7 @@ let () =
         Printf.printf "%s\t%s\t-\n" case impl   (* lexing failed or hung: nothing for this model to say *)
       else begin
         let body = String.sub oracle 5 (String.length oracle - 5) in
+        let body = (match String.index_opt body ';' with Some k -> String.sub body 0 k | None -> body) in
         let idx = if body = "" then [] else List.map int_of_string (split_on ',' body) in
         let toks = List.map (fun i -> tt_table.(i)) idx in
         let off = int_of_nat (fst (trim_tokens toks)) in
